@@ -71,6 +71,7 @@ def chains_for(ir_and_seed):
     start = pi(ir)
     memo = {(): ir}
     fails, n, raised, reached = {}, 0, 0, set()
+    raising = []
     for s in seqs:
         cur = None
         try:
@@ -78,9 +79,10 @@ def chains_for(ir_and_seed):
                 if s[:i] not in memo:
                     memo[s[:i]] = hop(s[i - 1], memo[s[:i - 1]])
                 cur = memo[s[:i]]
-        except Exception:
+        except Exception as ex:
             raised += 1
             memo[s[:i]] = None
+            raising.append((list(s[:i]), type(ex).__name__))
             continue
         if cur is None:
             raised += 1
@@ -96,11 +98,12 @@ def chains_for(ir_and_seed):
             first = next((i for i in range(1, len(s) + 1) if memo.get(s[:i]) is not None and pi(memo[s[:i]]) != start), len(s))
             key = ("chain", "first-broken-by=" + s[first - 1], field, M.typ_class(src.get("typ")), M.default_class(src))
             fails.setdefault(key, (list(s), ir, "after %s: %r became %r" % (" -> ".join(s), a[j] if a else a, b[j] if j < len(b) else b)))
-    return n, raised, fails, len(reached)
+    return n, raised, fails, len(reached), [(seq, ir, exc) for seq, exc in raising]
 
 
 def main(tier, write_baseline=False):
     run = Run("C03", tier, "other", checker_cmd="lean /verif/lean/C03.lean  +  " + common.checker_cmd("C03", tier))
+    M.RAISE_CTX.update(prop="C03", write=bool(write_baseline))
     run.trusted_base.update(["Lean 4.33 kernel (lean/C03.lean, no Mathlib)", "the Lean statement models a hop as a total function IR -> IR and pi as a projection; H1/H2 are only checked within the bound"])
     lean_obligations(run)
     if write_baseline:
@@ -118,6 +121,15 @@ def main(tier, write_baseline=False):
         for r in res:
             for k, v in r[2].items():
                 fails.setdefault(k, v)
+        # a chain that ran to its end on the committed tree and now raises is a violation, not an out-of-domain input
+        base = M._raise_baseline()
+        for r in res:
+            for seq, ir_, exc in r[4]:
+                h = M._raise_hash(seq, ir_, exc)
+                if write_baseline:
+                    M._NEW_RAISES.add(h)
+                elif base is not None and h not in base:
+                    fails.setdefault(("newly-raises", "first-broken-by=" + seq[-1], exc, "-", "-"), (seq, ir_, "the chain %s ran on the committed tree and now raises %s" % (" -> ".join(seq), exc)))
         run.bounded.append({
             "name": "H1 / H2 of the Lean lemma checked by running conversion chains on the real emitters/parsers (bounded, NOT counted as proved)",
             "bound": "%d start interfaces (n = 1 exhaustive over %d shapes: scalar / Optional[scalar] / Literal types with signature-legal defaults; n = 2, 3 seeded samples) x every sequence of length 1..3 over {class, pydantic, function, argparse, docstring-rest} (155) + %d sampled sequences of length 4..5; %d chains raised" % (len(irs), len(pool), 12 if tier == "quick" else 80, raised),
@@ -131,6 +143,7 @@ def main(tier, write_baseline=False):
     for key, (seq, ir, what) in sorted(fails.items(), key=str):
         cls = "|".join(str(k) for k in key)
         run.violation("C03/bounded/chain", "[class %s] %s" % (cls, what), key={"class": cls}, failing_input={"sequence": seq, "ir": json.loads(json.dumps(ir, default=str))})
+    M.flush_raise_baseline()
     return run.finish(explanation="PROVED (Lean): closure and commutation for chains of any length GIVEN the hop contracts H1/H2. BOUNDED only: H1/H2 on the real code — "
                       "so the result is unbounded in history length and bounded in the start set.")
 
